@@ -276,6 +276,8 @@ class GaussianBackend(BaseGaussian):
             # the mean vector and covariance matrix are never compacted when a mode is
             # deleted: the data of mode ``i`` stays in slot ``i``
             modes = self.get_modes()
+        elif isinstance(modes, int):
+            modes = [modes]
 
         listmodes = list(concatenate((2 * array(modes), 2 * array(modes) + 1)))
         covmat = empty((2 * len(modes), 2 * len(modes)))
